@@ -581,7 +581,14 @@ def np_where(eng, st, args, kw, node):
     st.pc.append(z3.ForAll([e, f], z3.Implies(z3.And(e >= 0, e < f, f < k), ie < z3.Select(it, f))))
     x = z3.Int('x!w')
     widx = z3.Function('widx!%d' % next(core._fresh), INT, INT)
-    st.pc.append(z3.ForAll([x], z3.Implies(z3.And(x >= 0, x < n0, truth(r.fn(x))), z3.And(widx(x) >= 0, widx(x) < k, z3.Select(it, widx(x)) == x)), patterns=[widx(x)]))
+    pats = [widx(x)]
+    try:
+        cx = to_z3(r.fn(x))
+        if z3.is_app(cx) and cx.decl().kind() == z3.Z3_OP_SELECT:
+            pats.append(cx)          # also triggered by the tested entry itself (M[u][x]), so that "M[u][w] != 0" finds w in the result
+    except Exception:
+        pass
+    st.pc.append(z3.ForAll([x], z3.Implies(z3.And(x >= 0, x < n0, truth(r.fn(x))), z3.And(widx(x) >= 0, widx(x) < k, z3.Select(it, widx(x)) == x)), patterns=pats))
     # emptiness form (no Skolem function; patterns inferred from the condition): a position satisfying the condition makes the result non-empty
     st.pc.append(z3.ForAll([x], z3.Implies(z3.And(x >= 0, x < n0, truth(r.fn(x))), k >= 1)))
     return TupleV((alloc(st, 1, it, (k,), INT, {'where_idx': widx, 'where_cond1': (lambda q, r=r: r.fn(q)), 'where_n': r.n}),))
